@@ -40,7 +40,12 @@ def bodies():
         # temporaries that are re-assigned: the last assignment decides the width
         "t = 1\n      t = s.c\n      s.out @= t", "acc = 0\n      for i in range(4):\n        acc = acc ^ s.a[i]\n      s.out @= acc",
         "t = 0\n      t = s.b\n      s.out @= t", "t = 3\n      if s.c:\n        t = s.x2\n      s.out @= zext(t, 8)", "t = s.b\n      t = t + 1\n      s.out @= t",
-        "t = 0\n      t = s.a\n      s.out @= t", "u = 1\n      u = s.c & s.c\n      s.out @= zext(u, 8) + u"]
+        "t = 0\n      t = s.a\n      s.out @= t", "u = 1\n      u = s.c & s.c\n      s.out @= zext(u, 8) + u",
+        # literal-only sub-expressions whose VALUE needs more bits than the explicitly sized operand next to them
+        "s.out @= zext(s.b + (3*7), 8)", "s.out @= zext(s.b & (1 << 4), 8)", "s.out @= zext(s.b < (7 + 9), 8)", "s.out2 @= s.x2 + (2 + 2)",
+        "s.out @= zext(s.x3 ^ (5 + 5), 8)", "s.out @= zext(s.b == (255 - 200), 8)",
+        # a list of signals whose INTERIOR element has another width (first and last agree)
+        "MIX:s.out @= s.mix[s.x2[0:2]]", "MIX:s.out @= s.mix[1] + 1", "MIX:s.out @= s.mix[0] & s.mix[1]", "MIX:s.out @= s.kmix[1]"]
   return B
 
 
@@ -51,8 +56,11 @@ def module():
   global _mod
   if _mod is None:
     src = HDR
+    MIX = "; s.mix = [InPort(Bits8), InPort(Bits4), InPort(Bits8)]; s.kmix = [Bits8(1), Bits4(2), Bits8(3)]"
     for i, b in enumerate(bodies()):
-      src += f"\nclass M{i}(Component):\n  def construct(s):\n    {DECL}\n    @update\n    def up():\n      {b}\n"
+      decl = DECL + (MIX if b.startswith('MIX:') else '')
+      b = b[4:] if b.startswith('MIX:') else b
+      src += f"\nclass M{i}(Component):\n  def construct(s):\n    {decl}\n    @update\n    def up():\n      {b}\n"
     d = tempfile.mkdtemp(prefix='mm_', dir=os.environ.get('VERIF_SCRATCH') or None)
     fn = os.path.join(d, 'verif_mm_mod.py')
     with open(fn, 'w') as f: f.write(src)
